@@ -34,6 +34,20 @@ CHECKS = [
         "text": "Decides for every pipeline, failure point and failure class at once: after pipeline_start every exit of execute passes exactly one pipeline_end (ok iff return; error ends re-raise), then one flush and one close; from the statement that runs a node, exactly one SER on every path (succeeded on fall-through, error on Exception- and BaseException-class paths) and the exception is re-raised bare; SER/pipeline_end ids derive from those given to pipeline_start, node ids follow canonical order, upstream lists are the inverted canonical edges; driver record literals contain every schema-required key with matching consts/enums and the registry maps each emitted type to an existing schema; values reaching pipeline_start are JSON-safe by construction; one JSON line per record.",
         "note": "Assumes driver methods do not raise, BaseException only at call sites, and (for the per-node rule) that only node execution, explicit raise and _publish are failure points. Content validity of free-form fields and disk faults are not decided.",
     },
+    {
+        "property_id": "C17",
+        "design_ref": "DESIGN.md section 3, C17",
+        "technique": "static analysis: dominators / guard dominance on the CFG of cli._run (gates before every executing call), reaching-definitions for flag attachment, exit-code table agreement, must-pass-through for failure exits; C02-D2 rule re-applied",
+        "text": "Decides for every configuration and flag combination: each executing call of _run (pipeline.process, run-space emit_start/emit_end) is dominated by successful parse, inspection, validation and run-space expansion and by the false branches of --validate, missing keys, run-space dry_run and --dry-run; a failing gate reaches no executing call and exits non-zero with the documented code; CLI flag values are written into mappings attached to the configuration that is parsed; EXIT_* constants and class->code mapping are the documented ones; exit_code becomes non-zero exactly in the run-loop handlers and a failing run leaves the loop; the required-key set feeding the missing-key gate is order-sensitive.",
+        "note": "Assumes Pipeline/trace-driver construction executes no node and opens no file, print/logger do not raise. Does not run the CLI; the accuracy of inspection beyond the order-sensitivity rule is C02's.",
+    },
+    {
+        "property_id": "C09",
+        "design_ref": "DESIGN.md section 3, C09",
+        "technique": "static analysis: sibling normal-form comparison of the two RSCF normalisers, argument provenance, occurrence counting of emit_end per exit on the CFG of cli._run, def-use/freshness of per-run context and metadata, ownership (freshness-tree) analysis of the canonical spec in execute, launch-id input coverage",
+        "text": "Decides the structural conditions of the launch property: inspection and runtime normalise and hash the same representation of the run-space block with the same options/prefix; after emit_start every exit passes exactly one emit_end with planned = len(runs) and completed = a counter incremented once per iteration after process returned, status set on failure; each run's context is a fresh mapping built in the loop from the shared --context plus that run's values, metadata carries a copy, the 0-based index and the launch FK and is cleared after the run; execute forwards the four linkage fields and never mutates the caller-owned canonical spec; explicit / idempotent / generated launch ids use exactly their documented inputs; inputs id covers spec id and every file digest.",
+        "note": "Assumes yaml.safe_load/asdict determinism and that emitter/driver calls do not raise. 'Run i equals a standalone run' is not decided (needs execution); only the no-leak conditions are.",
+    },
 ]
 _TODO = "check not built yet in this session (planned: DESIGN.md section 3); not claimed until its rules run clean and fire on their variants"
 NOT_APPLICABLE = [
